@@ -1,48 +1,796 @@
 package main
 
 import (
+	"bufio"
 	"encoding/json"
 	"fmt"
 	"os"
+	"path/filepath"
+	"sort"
 	"strconv"
+	"strings"
+	"sync"
 	"time"
 
 	"symgo/sym"
 )
 
+const (
+	repoDir    = "/repo"
+	verifDir   = "/verif"
+	harnessDir = "/verif/harness"
+)
+
 func main() {
 	if len(os.Args) < 2 {
-		fmt.Println("usage: symgo run <pkg.Func> [args...]")
-		os.Exit(2)
+		usage()
 	}
 	switch os.Args[1] {
 	case "run":
-		t0 := time.Now()
-		ov, _, err := sym.BuildOverlay("/repo", "/verif/harness")
-		if err != nil {
-			panic(err)
+		cmdRun(os.Args[2:])
+	case "check":
+		os.Exit(cmdCheck(os.Args[2:]))
+	case "replay":
+		os.Exit(cmdReplay(os.Args[2:]))
+	case "manifest":
+		cmdManifest()
+	case "list":
+		for _, p := range allProps() {
+			fmt.Println(p.ID, "-", p.Title)
 		}
-		p, err := sym.Load("/repo", ov)
-		if err != nil {
-			fmt.Println(err)
-			os.Exit(2)
-		}
-		fmt.Fprintf(os.Stderr, "loaded in %.1fs\n", time.Since(t0).Seconds())
-		job := &sym.Job{ID: os.Args[2], Harness: os.Args[2]}
-		for _, a := range os.Args[3:] {
+	default:
+		usage()
+	}
+}
+
+func usage() {
+	fmt.Println("usage: symgo check <id> [--tier quick|thorough] | replay <file> | run <pkg.Func> [args] | list")
+	os.Exit(2)
+}
+
+func loadProgram() (*sym.Program, error) {
+	ov, _, err := sym.BuildOverlay(repoDir, harnessDir)
+	if err != nil {
+		return nil, err
+	}
+	return sym.Load(repoDir, ov)
+}
+
+func cmdRun(args []string) {
+	t0 := time.Now()
+	p, err := loadProgram()
+	if err != nil {
+		fmt.Println(err)
+		os.Exit(2)
+	}
+	fmt.Fprintf(os.Stderr, "loaded in %.1fs\n", time.Since(t0).Seconds())
+	job := &sym.Job{ID: args[0], Harness: args[0]}
+	if !strings.Contains(job.Harness, "/") {
+		job.Harness = resolveHarness(p, job.Harness)
+	}
+	for _, a := range args[1:] {
+		switch {
+		case a == "--threads":
+			job.Threads = true
+			job.Preempt = 2
+		case strings.HasPrefix(a, "--primary="):
+			job.Primary = strings.TrimPrefix(a, "--primary=")
+		case strings.HasPrefix(a, "--loop="):
+			job.LoopBound, _ = strconv.Atoi(strings.TrimPrefix(a, "--loop="))
+		default:
 			v, _ := strconv.ParseInt(a, 10, 64)
 			job.Args = append(job.Args, v)
 		}
-		stats := sym.NewSolverStats()
-		e, err := sym.NewEngine(p, job, stats, nil, 1)
-		if err != nil {
-			panic(err)
-		}
-		res := e.Run()
-		res.Job = nil
-		out, _ := json.MarshalIndent(res, "", " ")
-		fmt.Println(string(out))
-		out, _ = json.MarshalIndent(stats, "", " ")
-		fmt.Println(string(out))
 	}
+	stats := sym.NewSolverStats()
+	known, _ := readKnown("")
+	e, err := sym.NewEngine(p, job, stats, known, 1)
+	if err != nil {
+		panic(err)
+	}
+	res := e.Run()
+	res.Job = nil
+	res.Witness = nil
+	res.PathSamples = nil
+	out, _ := json.MarshalIndent(res, "", " ")
+	fmt.Println(string(out))
+	out, _ = json.MarshalIndent(stats, "", " ")
+	fmt.Println(string(out))
+}
+
+func resolveHarness(p *sym.Program, name string) string {
+	for path, sp := range p.ByPath {
+		if strings.HasPrefix(path, sym.HeliosModule) && sp.Func(name) != nil {
+			return path + "." + name
+		}
+	}
+	return name
+}
+
+// ---------------------------------------------------------------- known findings
+
+type knownEntry struct {
+	Property string
+	ID       string
+	Label    string
+	Desc     string
+}
+
+func parseKnownFile() []knownEntry {
+	f, err := os.Open(filepath.Join(verifDir, "known_findings.txt"))
+	if err != nil {
+		return nil
+	}
+	defer f.Close()
+	var out []knownEntry
+	sc := bufio.NewScanner(f)
+	sc.Buffer(make([]byte, 1<<20), 1<<20)
+	for sc.Scan() {
+		line := strings.TrimSpace(sc.Text())
+		if !strings.HasPrefix(line, "known:") {
+			continue
+		}
+		line = strings.TrimSpace(strings.TrimPrefix(line, "known:"))
+		desc := ""
+		if i := strings.Index(line, "::"); i >= 0 {
+			desc = strings.TrimSpace(line[i+2:])
+			line = strings.TrimSpace(line[:i])
+		}
+		e := knownEntry{Desc: desc}
+		// fields: property=.. id=.. label="..."
+		for len(line) > 0 {
+			line = strings.TrimSpace(line)
+			eq := strings.Index(line, "=")
+			if eq < 0 {
+				break
+			}
+			key := line[:eq]
+			rest := line[eq+1:]
+			var val string
+			if strings.HasPrefix(rest, "\"") {
+				end := strings.Index(rest[1:], "\"")
+				if end < 0 {
+					break
+				}
+				val = rest[1 : 1+end]
+				line = rest[end+2:]
+			} else {
+				sp := strings.IndexAny(rest, " \t")
+				if sp < 0 {
+					val = rest
+					line = ""
+				} else {
+					val = rest[:sp]
+					line = rest[sp:]
+				}
+			}
+			switch key {
+			case "property":
+				e.Property = val
+			case "id":
+				e.ID = val
+			case "label":
+				e.Label = val
+			}
+		}
+		if e.ID != "" && e.Property != "" && e.Label != "" {
+			out = append(out, e)
+		}
+	}
+	return out
+}
+
+// readKnown returns finding id -> labels for one property ("" = all).
+func readKnown(prop string) (map[string]map[string]bool, map[string]knownEntry) {
+	m := map[string]map[string]bool{}
+	byID := map[string]knownEntry{}
+	for _, e := range parseKnownFile() {
+		if prop != "" && e.Property != prop {
+			continue
+		}
+		if m[e.ID] == nil {
+			m[e.ID] = map[string]bool{}
+		}
+		m[e.ID][e.Label] = true
+		byID[e.ID] = e
+	}
+	return m, byID
+}
+
+// ---------------------------------------------------------------- check
+
+type evidence struct {
+	PropertyID  string                 `json:"property_id"`
+	Tier        string                 `json:"tier"`
+	Seed        int64                  `json:"seed"`
+	Level       string                 `json:"level"`
+	Coverage    map[string]interface{} `json:"coverage"`
+	Assumptions []string               `json:"assumptions"`
+	WallS       float64                `json:"wall_s"`
+	Violations  int                    `json:"violations"`
+}
+
+func cmdCheck(args []string) int {
+	t0 := time.Now()
+	if len(args) < 1 {
+		usage()
+	}
+	id := args[0]
+	tier := os.Getenv("VERIF_TIER")
+	if tier == "" {
+		tier = "quick"
+	}
+	for i := 1; i < len(args); i++ {
+		if args[i] == "--tier" && i+1 < len(args) {
+			tier = args[i+1]
+			i++
+		}
+	}
+	if tier != "quick" && tier != "thorough" {
+		tier = "quick"
+	}
+	seed := int64(1)
+	if s := os.Getenv("VERIF_SEED"); s != "" {
+		if v, err := strconv.ParseInt(s, 10, 64); err == nil {
+			seed = v
+		}
+	}
+	var prop *Prop
+	for _, p := range allProps() {
+		if p.ID == id {
+			prop = p
+		}
+	}
+	if prop == nil {
+		fmt.Println("unknown property", id)
+		return 2
+	}
+	evPath := filepath.Join(verifDir, "evidence", id+".json")
+	os.MkdirAll(filepath.Dir(evPath), 0o755)
+	os.Remove(evPath)
+
+	ev := &evidence{PropertyID: id, Tier: tier, Seed: seed, Level: "model_checking", Coverage: map[string]interface{}{}}
+	ev.Assumptions = append(ev.Assumptions, prop.Assumptions...)
+	inconclusive := []string{}
+	finish := func(code int) int {
+		ev.WallS = time.Since(t0).Seconds()
+		if len(inconclusive) > 0 {
+			ev.Coverage["inconclusive"] = inconclusive
+		}
+		data, _ := json.MarshalIndent(ev, "", " ")
+		os.WriteFile(evPath, data, 0o644)
+		return code
+	}
+
+	prog, err := loadProgram()
+	if err != nil {
+		fmt.Println("INCONCLUSIVE: cannot load /repo with harness overlay:", err)
+		inconclusive = append(inconclusive, "load: "+err.Error())
+		ev.Coverage["states"] = 0
+		return finish(2)
+	}
+	loadS := time.Since(t0).Seconds()
+	known, knownByID := readKnown(id)
+
+	jobs := prop.Jobs(tier)
+	for _, j := range jobs {
+		if j.CrossCheckEvery == 0 {
+			if tier == "thorough" {
+				j.CrossCheckEvery = 1
+			} else {
+				j.CrossCheckEvery = 5
+			}
+		}
+	}
+	stats := sym.NewSolverStats()
+	results := make([]*sym.JobResult, len(jobs))
+	workers := 16
+	if len(jobs) < workers {
+		workers = len(jobs)
+	}
+	var wg sync.WaitGroup
+	ch := make(chan int)
+	for w := 0; w < workers; w++ {
+		wg.Add(1)
+		go func() {
+			defer wg.Done()
+			for i := range ch {
+				e, err := sym.NewEngine(prog, jobs[i], stats, known, seed+int64(i))
+				if err != nil {
+					results[i] = &sym.JobResult{Job: jobs[i], Inconclusive: []string{"engine: " + err.Error()}}
+					continue
+				}
+				results[i] = e.Run()
+			}
+		}()
+	}
+	for i := range jobs {
+		ch <- i
+	}
+	close(ch)
+	wg.Wait()
+
+	// ---- aggregate
+	var (
+		paths, infeasible, instrs, blocks, decisions int
+		funcs                                        = map[string]bool{}
+		intr                                         = map[string]int{}
+		samples                                      []interface{}
+		jobRows                                      []map[string]interface{}
+		newViol                                      []*sym.Violation
+		knownHits                                    = map[string]*sym.Violation{}
+		negOK, negTotal                              int
+		asserts                                      = map[string]map[string]int{}
+		crossChecked, disagreements                  int
+		pathSamples                                  []*sym.PathSample
+		feasUnknown                                  int
+	)
+	for _, r := range results {
+		j := r.Job
+		paths += r.Paths
+		infeasible += r.Infeasible
+		instrs += r.Instrs
+		blocks += r.Blocks
+		decisions += r.Decisions
+		crossChecked += r.CrossChecked
+		disagreements += r.Disagreements
+		feasUnknown += r.FeasUnknown
+		for f := range r.Funcs {
+			funcs[f] = true
+		}
+		for k, v := range r.Intrinsics {
+			intr[k] += v
+		}
+		row := map[string]interface{}{"job": j.ID, "harness": j.Harness, "args": j.Args, "paths": r.Paths, "pruned_or_infeasible": r.Infeasible,
+			"ssa_instrs": r.Instrs, "wall_s": round2(r.Wall), "loop_bound": j.LoopBound, "unwinding": "assertions passed"}
+		if j.Threads {
+			row["threads"] = true
+			row["preemption_bound"] = j.Preempt
+		}
+		if j.Note != "" {
+			row["note"] = j.Note
+		}
+		if len(r.Unwind) > 0 {
+			row["unwinding"] = r.Unwind
+			for k := range r.Unwind {
+				inconclusive = append(inconclusive, j.ID+": unwinding bound hit: "+k)
+			}
+		}
+		for k, n := range r.Unsupported {
+			inconclusive = append(inconclusive, fmt.Sprintf("%s: unsupported construct (%d paths): %s", j.ID, n, k))
+		}
+		for _, s := range r.Inconclusive {
+			if j.ExpectViolation && strings.HasPrefix(s, "vacuous") {
+				continue
+			}
+			inconclusive = append(inconclusive, j.ID+": "+s)
+		}
+		if j.ExpectViolation {
+			negTotal++
+			if len(r.Violations) > 0 {
+				negOK++
+				row["negative_twin"] = "violated as required"
+			} else {
+				row["negative_twin"] = "NOT violated"
+				inconclusive = append(inconclusive, j.ID+": negative twin did not produce a violation (vacuous harness?)")
+			}
+		} else {
+			newViol = append(newViol, r.Violations...)
+			for k, v := range r.KnownHits {
+				if _, ok := knownHits[k]; !ok {
+					knownHits[k] = v
+				}
+			}
+			for l, a := range r.Asserts {
+				m := asserts[l]
+				if m == nil {
+					m = map[string]int{}
+					asserts[l] = m
+				}
+				m["reached"] += a.Reached
+				m["unsat"] += a.Unsat
+				m["trivially_true"] += a.Trivial
+				m["sat_new"] += a.Sat
+				m["sat_known"] += a.KnownSat
+				m["unknown"] += a.Unknown
+			}
+			pathSamples = append(pathSamples, r.PathSamples...)
+		}
+		for _, s := range r.Samples {
+			if len(samples) < 12 {
+				samples = append(samples, s)
+			}
+		}
+		jobRows = append(jobRows, row)
+	}
+
+	// ---- native side: translator validation of sampled paths, replay of counterexamples
+	runner, err := sym.NewNativeRunner(prog, harnessDir)
+	validated, valMismatch := 0, 0
+	var replayNotes []string
+	confirmed := []*sym.Violation{}
+	if err != nil {
+		inconclusive = append(inconclusive, "native runner: "+err.Error())
+	} else {
+		defer runner.Close()
+		// validation, one batch per package
+		byPkg := map[string][]*sym.PathSample{}
+		for _, ps := range pathSamples {
+			pkg := ps.Harness[:strings.LastIndex(ps.Harness, ".")]
+			byPkg[pkg] = append(byPkg[pkg], ps)
+		}
+		pkgs := make([]string, 0, len(byPkg))
+		for k := range byPkg {
+			pkgs = append(pkgs, k)
+		}
+		sort.Strings(pkgs)
+		for _, pkg := range pkgs {
+			var cases []sym.NativeCase
+			for _, ps := range byPkg[pkg] {
+				cases = append(cases, sym.NativeCase{Harness: ps.Harness, Args: ps.Args, Values: sym.ValuesOf(ps.Inputs)})
+			}
+			outs, err := runner.Run(pkg, cases, false, 120*time.Second)
+			if err != nil {
+				inconclusive = append(inconclusive, "translator validation could not run natively: "+firstLine(err.Error()))
+				replayNotes = append(replayNotes, err.Error())
+				continue
+			}
+			for i, o := range outs {
+				ps := byPkg[pkg][i]
+				if o.Outcome == "pass" && equalTrace(o.Trace, ps.Trace) {
+					validated++
+				} else {
+					valMismatch++
+					msg := fmt.Sprintf("translator validation mismatch in %s: native outcome %q trace %v; symbolic path passed with trace %v; inputs %s",
+						ps.Job, o.Outcome, o.Trace, ps.Trace, showInputs(ps.Inputs))
+					inconclusive = append(inconclusive, msg)
+				}
+			}
+		}
+		// replay new violations (distinct labels per job first; cap)
+		sort.SliceStable(newViol, func(i, j int) bool { return newViol[i].Label < newViol[j].Label })
+		seen := map[string]int{}
+		replayed := 0
+		for _, v := range newViol {
+			key := v.Job + "|" + v.Label
+			seen[key]++
+			if seen[key] > 1 || replayed >= 6 {
+				continue
+			}
+			replayed++
+			ok, note := replayViolation(runner, prog, v)
+			replayNotes = append(replayNotes, note)
+			if ok {
+				confirmed = append(confirmed, v)
+			} else {
+				inconclusive = append(inconclusive, "counterexample not reproduced natively ("+v.Job+" / "+v.Label+"): "+note)
+			}
+		}
+		if tier == "thorough" {
+			ids := make([]string, 0, len(knownHits))
+			for k := range knownHits {
+				ids = append(ids, k)
+			}
+			sort.Strings(ids)
+			for _, k := range ids {
+				ok, note := replayViolation(runner, prog, knownHits[k])
+				replayNotes = append(replayNotes, "known "+k+": "+note)
+				if ok {
+					validated++
+				} else {
+					inconclusive = append(inconclusive, "known finding "+k+" did not reproduce natively: "+note)
+				}
+			}
+		}
+		for _, l := range runner.Log {
+			if len(replayNotes) < 20 {
+				replayNotes = append(replayNotes, firstLine(l))
+			}
+		}
+	}
+
+	// ---- report
+	code := 0
+	ids := make([]string, 0, len(knownHits))
+	for k := range knownHits {
+		ids = append(ids, k)
+	}
+	sort.Strings(ids)
+	var knownRows []interface{}
+	for _, k := range ids {
+		v := knownHits[k]
+		fmt.Printf("KNOWN-FINDING: property=%s %s [%s] witness: %s / %q with %s\n", id, knownByID[k].Desc, k, v.Job, v.Label, showInputs(v.Inputs))
+		knownRows = append(knownRows, map[string]interface{}{"id": k, "job": v.Job, "label": v.Label, "inputs": showInputs(v.Inputs), "what": knownByID[k].Desc})
+	}
+	var violRows []interface{}
+	for _, v := range confirmed {
+		path := writeReplay(id, v)
+		fmt.Printf("VIOLATION property=%s replay=%s\n", id, path)
+		fmt.Printf("  %s: %s %q %s with %s\n", v.Job, v.Kind, v.Label, v.Detail, showInputs(v.Inputs))
+		violRows = append(violRows, map[string]interface{}{"job": v.Job, "label": v.Label, "kind": v.Kind, "inputs": showInputs(v.Inputs), "replay": path, "detail": v.Detail})
+		code = 1
+	}
+	if code == 0 && len(inconclusive) > 0 {
+		code = 2
+		for _, s := range inconclusive {
+			fmt.Println("INCONCLUSIVE:", firstLine(s))
+		}
+	}
+	// queries
+	q := map[string]int{}
+	for k, v := range stats.Queries {
+		q[k] = v
+	}
+	secs := map[string]float64{}
+	for k, v := range stats.Seconds {
+		secs[k] = round2(v)
+	}
+	fl := make([]string, 0, len(funcs))
+	for f := range funcs {
+		if strings.Contains(f, sym.HeliosModule) && !strings.Contains(f, "verifrt") {
+			fl = append(fl, strings.ReplaceAll(f, sym.HeliosModule+"/", ""))
+		}
+	}
+	sort.Strings(fl)
+	stubs := []string{}
+	for k, n := range intr {
+		if !strings.Contains(k, "verifrt") {
+			stubs = append(stubs, fmt.Sprintf("%s x%d", k, n))
+		}
+	}
+	sort.Strings(stubs)
+	if len(samples) == 0 {
+		samples = append(samples, "no assertion was reached")
+	}
+	ev.Coverage["states"] = paths
+	ev.Coverage["transitions"] = instrs
+	ev.Coverage["traces_validated_against_impl"] = validated
+	ev.Coverage["samples"] = samples
+	ev.Coverage["explanation"] = "states = complete feasible symbolic paths explored (each stands for every input satisfying its path condition); transitions = SSA instructions executed symbolically; traces_validated = solver models of completed paths re-executed natively (go test, real build, virtual clock overlay) with identical outcome and observation trace"
+	ev.Coverage["paths_infeasible_or_exhausted"] = infeasible
+	ev.Coverage["ssa_blocks"] = blocks
+	ev.Coverage["fork_decisions"] = decisions
+	ev.Coverage["functions_encoded"] = fl
+	ev.Coverage["bounds"] = prop.Bounds[tier]
+	ev.Coverage["outside_bounds"] = prop.Outside
+	ev.Coverage["queries"] = q
+	ev.Coverage["solver_seconds"] = secs
+	ev.Coverage["solver_errors"] = stats.Errors
+	ev.Coverage["feasibility_unknown_kept"] = feasUnknown
+	ev.Coverage["cross_checked_queries"] = crossChecked
+	ev.Coverage["solver_disagreements"] = disagreements
+	ev.Coverage["stubs_and_intrinsics_hit"] = stubs
+	ev.Coverage["assertions"] = asserts
+	ev.Coverage["jobs"] = jobRows
+	ev.Coverage["negative_twins"] = fmt.Sprintf("%d/%d violated as required", negOK, negTotal)
+	ev.Coverage["validation_mismatches"] = valMismatch
+	ev.Coverage["known_findings_hit"] = knownRows
+	ev.Coverage["violations"] = violRows
+	ev.Coverage["replay_notes"] = replayNotes
+	ev.Coverage["load_s"] = round2(loadS)
+	ev.Coverage["exhaustive"] = false
+	ev.Violations = len(confirmed)
+	if code == 0 {
+		fmt.Printf("OK property=%s tier=%s paths=%d queries=%d validated=%d known=%d wall=%.1fs\n", id, tier, paths, totalQ(q), validated, len(knownHits), time.Since(t0).Seconds())
+	}
+	return finish(code)
+}
+
+func totalQ(q map[string]int) int {
+	n := 0
+	for _, v := range q {
+		n += v
+	}
+	return n
+}
+
+func round2(f float64) float64 { return float64(int(f*100+0.5)) / 100 }
+
+func firstLine(s string) string {
+	if i := strings.Index(s, "\n"); i >= 0 {
+		s = s[:i]
+	}
+	if len(s) > 400 {
+		s = s[:400] + "…"
+	}
+	return s
+}
+
+func equalTrace(a, b []string) bool {
+	if len(a) != len(b) {
+		return false
+	}
+	for i := range a {
+		if a[i] != b[i] {
+			return false
+		}
+	}
+	return true
+}
+
+func showInputs(in []sym.Input) string {
+	var parts []string
+	for _, i := range in {
+		if i.W == 1 && i.Kind == "bool" {
+			parts = append(parts, fmt.Sprintf("%s=%v", i.Name, i.Val != 0))
+		} else if i.W == 64 {
+			parts = append(parts, fmt.Sprintf("%s=%d", i.Name, int64(i.Val)))
+		} else {
+			parts = append(parts, fmt.Sprintf("%s=%d", i.Name, i.Val))
+		}
+		if len(parts) > 40 {
+			parts = append(parts, "…")
+			break
+		}
+	}
+	return strings.Join(parts, " ")
+}
+
+// replayViolation runs the counterexample natively; it reproduces when the
+// same assertion fails (or the same kind of event happens).
+func replayViolation(runner *sym.NativeRunner, prog *sym.Program, v *sym.Violation) (bool, string) {
+	pkg := v.Harness[:strings.LastIndex(v.Harness, ".")]
+	race := v.Kind == "race"
+	outs, err := runner.Run(pkg, []sym.NativeCase{{Harness: v.Harness, Args: v.Args, Values: sym.ValuesOf(v.Inputs)}}, race, 60*time.Second)
+	if err != nil {
+		return false, "native run failed: " + firstLine(err.Error())
+	}
+	o := outs[0]
+	note := fmt.Sprintf("%s %q -> native outcome %q", v.Job, v.Label, o.Outcome)
+	switch v.Kind {
+	case "assert":
+		return o.Outcome == "assert:"+v.Label, note
+	case "panic":
+		return strings.HasPrefix(o.Outcome, "panic:"), note
+	case "deadlock":
+		return o.Outcome == "timeout", note
+	case "race":
+		return o.Outcome == "race", note
+	case "waitgroup":
+		return o.Outcome == "race" || strings.HasPrefix(o.Outcome, "panic:"), note
+	}
+	return false, note
+}
+
+func writeReplay(id string, v *sym.Violation) string {
+	dir := filepath.Join(verifDir, "replays", id)
+	os.MkdirAll(dir, 0o755)
+	name := fmt.Sprintf("%s-%d.json", sanitize(v.Job+"-"+v.Label), time.Now().UnixNano()%1000000)
+	path := filepath.Join(dir, name)
+	data, _ := json.MarshalIndent(v, "", " ")
+	os.WriteFile(path, data, 0o644)
+	return path
+}
+
+func sanitize(s string) string {
+	var b strings.Builder
+	for _, c := range s {
+		switch {
+		case c >= 'a' && c <= 'z', c >= 'A' && c <= 'Z', c >= '0' && c <= '9', c == '-', c == '_':
+			b.WriteRune(c)
+		default:
+			b.WriteRune('_')
+		}
+	}
+	s = b.String()
+	if len(s) > 80 {
+		s = s[:80]
+	}
+	return s
+}
+
+func cmdReplay(args []string) int {
+	if len(args) < 1 {
+		usage()
+	}
+	data, err := os.ReadFile(args[0])
+	if err != nil {
+		fmt.Println(err)
+		return 2
+	}
+	var v sym.Violation
+	if err := json.Unmarshal(data, &v); err != nil {
+		fmt.Println(err)
+		return 2
+	}
+	prog, err := loadProgram()
+	if err != nil {
+		fmt.Println(err)
+		return 2
+	}
+	runner, err := sym.NewNativeRunner(prog, harnessDir)
+	if err != nil {
+		fmt.Println(err)
+		return 2
+	}
+	defer runner.Close()
+	ok, note := replayViolation(runner, prog, &v)
+	fmt.Println(note)
+	for _, l := range runner.Log {
+		fmt.Println(l)
+	}
+	if ok {
+		fmt.Println("REPRODUCED")
+		return 1
+	}
+	fmt.Println("not reproduced")
+	return 0
+}
+
+func cmdManifest() {
+	type lvl struct {
+		Category  string `json:"category"`
+		Text      string `json:"text"`
+		DesignRef string `json:"design_ref,omitempty"`
+	}
+	type chk struct {
+		PropertyID string `json:"property_id"`
+		Quick      string `json:"quick_cmd"`
+		Thorough   string `json:"thorough_cmd"`
+		Evidence   string `json:"evidence_file"`
+		Replay     string `json:"replay_cmd_template"`
+		Engine     string `json:"engine"`
+		Level      lvl    `json:"level_claimed"`
+		Note       string `json:"level_note"`
+		Technique  string `json:"technique"`
+	}
+	type na struct {
+		PropertyID string `json:"property_id"`
+		Reason     string `json:"reason"`
+	}
+	var checks []chk
+	var served []string
+	for _, p := range allProps() {
+		served = append(served, p.ID)
+		checks = append(checks, chk{
+			PropertyID: p.ID,
+			Quick:      "/verif/bin/symgo check " + p.ID + " --tier quick",
+			Thorough:   "/verif/bin/symgo check " + p.ID + " --tier thorough",
+			Evidence:   "/verif/evidence/" + p.ID + ".json",
+			Replay:     "/verif/bin/symgo replay {path}",
+			Engine:     "symgo",
+			Level:      lvl{"model_checking", p.LevelText, p.DesignRef},
+			Note:       p.LevelNote,
+			Technique:  "bounded symbolic execution of the real go/ssa code into SMT-LIB2 (QF_BV), verdict by z3/cvc5; counterexamples replayed natively",
+		})
+	}
+	nas := []na{}
+	have := map[string]bool{}
+	for _, id := range served {
+		have[id] = true
+	}
+	for i := 1; i <= 20; i++ {
+		id := fmt.Sprintf("C%02d", i)
+		if _, ok := notApplicable[id]; !ok && !have[id] {
+			notApplicable[id] = "check not built yet (work in progress in this session; see DESIGN.md section 6 for the plan)"
+		}
+	}
+	ids := make([]string, 0, len(notApplicable))
+	for k := range notApplicable {
+		ids = append(ids, k)
+	}
+	sort.Strings(ids)
+	for _, k := range ids {
+		nas = append(nas, na{k, notApplicable[k]})
+	}
+	m := map[string]interface{}{
+		"version":   1,
+		"setup_cmd": "cd /verif/engine && GOFLAGS=-mod=mod GOPROXY=off GOSUMDB=off GOTOOLCHAIN=local go build -o /verif/bin/symgo ./cmd/symgo",
+		"hooks": map[string]interface{}{
+			"guard":            "verif",
+			"enable":           "none needed: harnesses are injected with go/packages overlays and go test -overlay; no hook commits exist in /repo",
+			"baseline_off_cmd": "cd /repo && GOFLAGS=-mod=mod GOPROXY=off go test -json -vet=off -count=1 -timeout 25m ./...",
+			"source_commits":   []string{},
+			"add_only":         true,
+		},
+		"engines": []map[string]interface{}{{
+			"name": "symgo", "path": "/verif/engine", "serves_properties": served,
+			"kind_free_text": "forking symbolic executor over go/ssa (x/tools v0.29.0) emitting SMT-LIB2 bit-vector queries to z3 4.8.12 / z3 5.1 / cvc5 1.0.3; harnesses overlaid into /repo's packages; native replay through go test -overlay",
+		}},
+		"checks":         checks,
+		"not_applicable": nas,
+		"notes":          "Every check reloads /repo's working tree, rebuilds SSA and regenerates all queries. Exit 0 = all verdict queries unsat within the stated bounds (known findings printed as KNOWN-FINDING lines); exit 1 = replay-confirmed counterexample (VIOLATION line); exit 2 = inconclusive (solver unknown, unwinding bound hit, unsupported construct, harness does not compile against the tree, counterexample not reproduced).",
+	}
+	data, _ := json.MarshalIndent(m, "", " ")
+	fmt.Println(string(data))
 }
